@@ -150,12 +150,13 @@ func (gen *generator) newFunc(ident ir.GlobalIdent, hdr ast.FuncHeader) (*ir.Fun
 		return nil, errors.WithStack(err)
 	}
 	typ := types.NewPointer(sig)
-	// (optional) Address space.
-	var addrSpace types.AddrSpace
+	// (optional) Address space; a function lives in the program address space
+	// of the data layout when none is written.
+	addrSpace := gen.programAddrSpace()
 	if n, ok := hdr.AddrSpace(); ok {
 		addrSpace = irAddrSpace(n)
-		typ.AddrSpace = addrSpace
 	}
+	typ.AddrSpace = addrSpace
 	return &ir.Func{GlobalIdent: ident, Sig: sig, Typ: typ, AddrSpace: addrSpace, Parent: gen.m}, nil
 }
 
